@@ -21,6 +21,18 @@ comment, help text) so that they reach the outputs that render those (docs, json
 any user value.  Any "did it change" decision that is taken on lines instead of on the text is exposed by these.  The
 format's own line terminators (LF, CR) are not generated inside values, see ASSUMPTIONS.
 
+Part H (the unchanged clause across PROCESSES).  A build runs one kconfgen process per generation and every interpreter has its
+own string-hash seed, so anything that is ordered by a set()/hash can differ between two generations of an unchanged
+configuration although it never differs inside one process (and never when all runs share one PYTHONHASHSEED -- the harness
+itself runs under PYTHONHASHSEED=0).  For every rename table in which one option has two / three deprecated aliases (plain and
+inverted; in one rename file, or split over --sdkconfig-rename and COMPONENT_SDKCONFIG_RENAMES) x configuration: a sequence of
+real `python -m kconfgen` subprocesses, each started with another PYTHONHASHSEED of a fixed list (quick 4, thorough 7 seeds),
+each writing EVERY output format of the CLI in one invocation (and, as a separate flow, `--config sdkconfig --output config
+sdkconfig` in place).  After the first process all mtimes are forced to the epoch; after every later process every destination
+must have the same inode, mtime, size and bytes as before it, and nothing else in the directory may change.  Sensitivity
+control (independent of the library): bare interpreters started with the same seeds must iterate set(<alias names>) in at least
+two different orders (counter H_items_whose_seeds_order_an_alias_set_differently == number of part H items).
+
 Part B (fault enumeration over save histories).  One long-lived Kconfig instance (a session) performs 1, 2 or 3 successive
 CHANGED saves to the same destination with backup enabled: hist = [c0, c1, .. cn]; the file initially holds the complete
 text of c0 (written by an independent instance); the session instance is fresh or has load_config()ed the destination;
@@ -36,6 +48,17 @@ crash point of save j is:  dest == new  OR  dest.old == previous  OR  (the crash
 finished AND dest == previous).  Crash-free, after every save j: dest == new and .old == previous (write_config docstring).
 The reference texts come from twins: a fresh instance that replays the same load / set / unset history and saves through the
 same function into an empty location.
+
+Destination NAME shapes (part B).  `.old` of <file> is <file> + ".old", whatever the name looks like.  Besides `sdkconfig` the
+crash exploration runs over destinations with an extension (sdkconfig.ci), two dots (sdkconfig.esp32.ci), inside a dotted
+directory (cfg.d/sdkconfig.esp32s3, cfg.d/sdkconfig), a dot-file (.config; thorough: .config.ci, cfg.d/.config), a plain
+sub-directory (build/sdkconfig), each as a regular file and as a symlink (the link carries the name; its target lives
+elsewhere under another name).  Sibling configurations: two destinations of ONE directory (sdkconfig.a / sdkconfig.b; sdkconfig /
+sdkconfig.ci; thorough also cfg.d/sdkconfig.esp32 / cfg.d/sdkconfig.esp32s3 and .config / .config.b), each with its own instance
+and history, saved alternately (A, B; A, B, A; thorough A, B, A, B) with every crash point of the last save; the oracle above is
+applied to the destination being saved with ITS `.old`, and in addition the other destination and its `.old` must hold, after the
+save and at every crash point of it, exactly the bytes they held when the save started (a save of one configuration never touches
+its sibling's copies: the sibling's completed save left dest == its new and .old == its previous, and that must stay so).
 """
 
 from __future__ import annotations
@@ -68,7 +91,17 @@ RULE = (
     "pre-state with a fresh instance that performs the earlier saves for real; a crash inside save j depends on c0..cj only and "
     "every session prefix is a work item of its own, so each (prefix, crash point) is executed once: by the item whose last save "
     "it is. evaluations = generation pairs + executed crash "
-    "points + crash-free saves. distinct_nontrivial = distinct (generator, unchanged|changed, previous bytes, new bytes) of "
+    "points + crash-free saves + part H regenerations. "
+    "part H: rename tables {one option with 2 aliases, with 3 aliases (plain + inverted), aliases of one option split over two rename files} "
+    "(thorough: + one alias per option) x configurations (quick 2, thorough 4; thorough also the `sep` tree) x one sequence of kconfgen "
+    "SUBPROCESSES with PYTHONHASHSEED 0,1,2,3 (thorough 0..6), all 9 output formats per invocation, plus the in-place config flow per table: "
+    "every process after the first must leave every output untouched (inode, mtime, size, bytes). "
+    "part B name shapes: destination names {extension, two dots, dotted directory + extension, dotted directory, dot-file, sub-directory} "
+    "(thorough + dot-file with extension, dot-file in dotted directory) x {regular, symlink (thorough + absolute)} x sessions of 1 save "
+    "(every save function, .old absent / older present) and 2 saves (quick: direct API; thorough: every function); sibling pairs of one "
+    "directory saved alternately (orders AB, ABA; thorough ABAB) x 2 assignments of histories x save function x {fresh, loaded} x dest kind x "
+    "older .old, crash points of the last save, with the additional clause that the sibling's dest and .old keep their bytes. "
+    "distinct_nontrivial = distinct (generator, unchanged|changed, previous bytes, new bytes) of "
     "part A and distinct (save function, destination kind, older .old, loaded, first|later save, crash operation, surviving "
     "pattern of dest, surviving pattern of .old) of part B."
 )
@@ -87,6 +120,13 @@ ASSUMPTIONS = [
     "(crash-free) save j-1 left there; 'new' is what a twin instance with the same load/set/unset history writes into an empty "
     "location through the same save function; a history with two consecutive equal texts is skipped (that save is not a changed "
     "save, part A covers it)",
+    "part H: 'a process' is a real `python -m kconfgen` subprocess; the ONLY thing varied between the successive processes is "
+    "PYTHONHASHSEED (fixed list, so the run is deterministic); no operation log is available for a subprocess, the destination's inode / "
+    "mtime (forced epoch) / size / bytes are compared; seeds are only useful if they order a set of the alias names differently, which is "
+    "measured by the control counter, not assumed",
+    "part B names: the backup of <file> is the file named <file>.old in the same directory for every file name (write_config docstring: "
+    "'<filename>.old'); for a symlink destination it is <link>.old next to the link; a save of one destination does not modify another "
+    "configuration file of the directory nor that file's .old (sibling clause)",
     "string values never contain the line terminators of the line-oriented output formats themselves (\\n, \\r): such a value is "
     "not representable in sdkconfig (load_config would split the line) -- observed while widening: a bare \\r in a value makes every "
     "_contents_eq/_write_if_changed comparison fail because reading translates it to \\n; not generated, reported separately",
@@ -191,6 +231,24 @@ HIST_QUICK = (0, 1, 3)
 HIST_THOROUGH = (0, 1, 3, 4)
 HIST_OLDER = 2  # the configuration of a pre-existing older `.old`
 SAVERS = ("write_config", "kconfserver:save", "menuconfig:_do_save")
+
+# part B destination NAME shapes: (destination relative to the project directory, file a symlink destination points to).
+# "plain" is the name of all other part B families.  The backup of <file> is <file>.old whatever dots <file> has.
+DEST_SHAPES = {
+    "extension": ("sdkconfig.ci", "real/ci.cfg"),
+    "two_dots": ("sdkconfig.esp32.ci", "real/esp32.ci.cfg"),
+    "dotted_dir/extension": ("cfg.d/sdkconfig.esp32s3", "real.d/esp32s3.cfg"),
+    "dotted_dir/plain": ("cfg.d/sdkconfig", "real.d/sdkconfig"),
+    "dotfile": (".config", "real/.config"),
+    "subdir/plain": ("build/sdkconfig", "real/sdkconfig"),
+    "dotfile_extension": (".config.ci", "real/.ci.cfg"),
+    "dotted_dir/dotfile": ("cfg.d/.config", "real.d/.config"),
+}
+SHAPES_QUICK = ("extension", "two_dots", "dotted_dir/extension", "dotted_dir/plain", "dotfile", "subdir/plain")
+# sibling configurations in ONE directory, saved alternately (each keeps its own .old)
+SIBLINGS_QUICK = [("sdkconfig.a", "sdkconfig.b"), ("sdkconfig", "sdkconfig.ci")]
+SIBLINGS_THOROUGH = SIBLINGS_QUICK + [("cfg.d/sdkconfig.esp32", "cfg.d/sdkconfig.esp32s3"), (".config", ".config.b")]
+SIBLING_HISTS = ((0, 1, 3), (4, 5, 6))  # indices into CONFIGS_QUICK: all six texts differ from each other and from HIST_OLDER
 
 
 # --------------------------------------------------------------------------------------------------
@@ -417,6 +475,14 @@ def items(tier: str, seed: int):
         sub.append({"part": "A", "gen": f"kconfgen-subprocess:{fmt}", "a": SEP_CONFIGS[-1], "b": SEP_CONFIGS[-1], "tree": "base"})
         if not quick:
             sub.append({"part": "A", "gen": f"kconfgen-subprocess:{fmt}", "a": {}, "b": {}, "tree": "sep"})
+    # ---- part H: the unchanged clause across kconfgen PROCESSES with different string-hash seeds, all formats in one invocation
+    seeds = H_SEEDS["quick" if quick else "thorough"]
+    for tname in ("two_aliases", "three_aliases", "two_files") if quick else tuple(H_TABLES):
+        for ci in (1, 4) if quick else (0, 1, 3, 4):
+            sub.append({"part": "H", "table": tname, "renames": H_TABLES[tname], "cfg": cfgs[ci], "seeds": seeds, "tree": "base"})
+        sub.append({"part": "H", "table": tname, "renames": H_TABLES[tname], "cfg": cfgs[1], "seeds": seeds, "tree": "base", "inplace": True})
+    if not quick:
+        sub.append({"part": "H", "table": "three_aliases", "renames": H_TABLES["three_aliases"], "cfg": {}, "seeds": seeds, "tree": "sep"})
     # ---- part B: single saves over every ordered pair (direct API, fresh instance)
     kinds = ("regular", "symlink") if quick else ("regular", "symlink", "symlink_abs")
     for a, b in itertools.permutations(range(len(cfgs)), 2):
@@ -439,6 +505,28 @@ def items(tier: str, seed: int):
                                 # (session prefix, crash point) is executed exactly once
                                 out.append({"part": "B", "hist": [cfgs[i] for i in h], "gen": gen, "load": load, "older": cfgs[HIST_OLDER] if old else None,
                                             "kind": kind, "write_deprecated": wdep, "crash_in": "last_save"})
+    # ---- part B: destination name shapes (one destination): 1 save by every save function, 2 saves (thorough: every function)
+    for shape in SHAPES_QUICK if quick else tuple(DEST_SHAPES):
+        name, real = DEST_SHAPES[shape]
+        assert name_shape(name) == shape, (name, shape)
+        for saves in (1, 2):
+            for h in histories(alphabet, saves):
+                for gen in SAVERS if (saves == 1 or not quick) else ("write_config",):
+                    for kind in kinds:
+                        for old in (False, True) if (saves == 1 or not quick) else (False,):
+                            out.append({"part": "B", "hist": [cfgs[i] for i in h], "gen": gen, "load": False, "older": cfgs[HIST_OLDER] if old else None, "kind": kind,
+                                        "write_deprecated": False, "crash_in": "last_save", "name": name, "real": real})
+    # ---- part B: two sibling configurations of one directory saved alternately (the save of the first alone is the family above)
+    for pair in SIBLINGS_QUICK if quick else SIBLINGS_THOROUGH:
+        for order in ([0, 1], [0, 1, 0]) if quick else ([0, 1], [0, 1, 0], [0, 1, 0, 1]):
+            for hs in (SIBLING_HISTS, SIBLING_HISTS[::-1]):
+                tg = [{"name": n, "real": f"real/t{k}.cfg", "hist": [CONFIGS_QUICK[i] for i in hs[k][: order.count(k) + 1]]} for k, n in enumerate(pair)]
+                for gen in SAVERS:
+                    for load in (False, True):
+                        for kind in kinds:
+                            for old in (False, True):
+                                out.append({"part": "B", "targets": tg, "order": order, "gen": gen, "load": load, "older": cfgs[HIST_OLDER] if old else None, "kind": kind,
+                                            "write_deprecated": False, "crash_in": "last_save"})
     # the subprocess items take seconds each: spread them over the list so that they land in different worker chunks
     stride = max(1, len(out) // max(1, len(sub)))
     for n, it in enumerate(sub):
@@ -594,6 +682,122 @@ def _classify_other(rel: str) -> str:
 
 
 # --------------------------------------------------------------------------------------------------
+# part H: unchanged regeneration by SEPARATE kconfgen processes whose string hashing differs
+# --------------------------------------------------------------------------------------------------
+
+# rename tables over the options of TREE: one option with two / three deprecated aliases (plain and inverted), aliases of one
+# option coming from two rename files (--sdkconfig-rename + COMPONENT_SDKCONFIG_RENAMES); "single" (one alias per option) is
+# the table of part A
+H_TABLES: Dict[str, List[str]] = {
+    "single": [RENAMES],
+    "two_aliases": ["CONFIG_OLDN CONFIG_N\nCONFIG_OLD_N2 CONFIG_N\nCONFIG_OLDP CONFIG_NEWP\nCONFIG_OLD_P2 CONFIG_NEWP\nCONFIG_OLD_I !CONFIG_NEWI\n"],
+    "three_aliases": [
+        "CONFIG_OLDN CONFIG_N\nCONFIG_OLD_N2 CONFIG_N\nCONFIG_LEGACY_N CONFIG_N\n"
+        "CONFIG_OLDS CONFIG_S\nCONFIG_OLD_S2 CONFIG_S\nCONFIG_SS_OLD CONFIG_S\n"
+        "CONFIG_OLD_I !CONFIG_NEWI\nCONFIG_OLD_I2 CONFIG_NEWI\nCONFIG_NOT_NEWI !CONFIG_NEWI\nCONFIG_OLDH CONFIG_H\n"
+    ],
+    "two_files": [
+        "CONFIG_OLDN CONFIG_N\nCONFIG_OLDP CONFIG_NEWP\nCONFIG_OLD_B CONFIG_B\n",
+        "CONFIG_OLD_N2 CONFIG_N\nCONFIG_OLD_P2 !CONFIG_NEWP\nCONFIG_OLD_B2 CONFIG_B\nCONFIG_OLD_B3 CONFIG_B\n",
+    ],
+}
+# PYTHONHASHSEED of the successive kconfgen processes (fixed lists; what a build system's fresh interpreters pick at random)
+H_SEEDS = {"quick": [0, 1, 2, 3], "thorough": [0, 1, 2, 3, 4, 5, 6]}
+
+
+def alias_groups(renames: List[str]) -> List[List[str]]:
+    """deprecated names per replacement option, groups of two or more only (file order)"""
+    groups: Dict[str, List[str]] = {}
+    for text in renames:
+        for line in text.splitlines():
+            old, new = line.split()
+            groups.setdefault(new.lstrip("!"), []).append(old[len("CONFIG_"):])
+    return [g for g in groups.values() if len(g) > 1]
+
+
+def hash_control(groups: List[List[str]], seeds: List[int]) -> int:
+    """sensitivity control, independent of the implementation: number of distinct iteration orders of set(<alias names>) over
+    the seed list, measured in bare interpreters started with these PYTHONHASHSEED values"""
+    code = "import sys;print([list(set(g)) for g in %r])" % (groups,)
+    seen = set()
+    for sd in seeds:
+        ev = dict(os.environ)
+        ev["PYTHONHASHSEED"] = str(sd)
+        seen.add(subprocess.run([sys.executable, "-S", "-c", code], env=ev, stdout=subprocess.PIPE, text=True, timeout=60).stdout)
+    return len(seen)
+
+
+def part_h(e: Env, item: dict, r: common.Result) -> None:
+    renames: List[str] = item["renames"]
+    cfg, seeds, inplace = item["cfg"], [int(x) for x in item["seeds"]], bool(item.get("inplace"))
+    fmts = ["config"] if inplace else list(item.get("formats") or KCONFGEN_FORMATS)
+    case = {"part": "H", "renames": renames, "cfg": cfg, "seeds": seeds, "inplace": inplace, "formats": fmts, "files": e.files}
+    d = e.fresh("H")
+    rfiles = []
+    for n, text in enumerate(renames):
+        rfiles.append(os.path.join(d, f"rename{n}.txt"))
+        with open(rfiles[-1], "w") as f:
+            f.write(text)
+    sdk = os.path.join(d, "sdkconfig" if inplace else "in.sdkconfig")
+    with open(sdk, "w") as f:
+        f.write(e.sdkconfig_text(cfg))
+    dests = {fmt: ("sdkconfig" if inplace else "deps/auto.conf" if fmt == "cdep_tree" else "out." + fmt) for fmt in fmts}
+    args = ["--kconfig", e.kpath, "--config", sdk, "--sdkconfig-rename", rfiles[0], "--env", "IDF_TARGET=esp32"]
+    for fmt in fmts:
+        args += ["--output", fmt, os.path.join(d, "deps" if fmt == "cdep_tree" else dests[fmt])]
+    groups = alias_groups(renames)
+    what = f"kconfgen processes with PYTHONHASHSEED {seeds}, {'in place, ' if inplace else ''}rename table {renames}, configuration {cfg}"
+    if groups and hash_control(groups, seeds) > 1:
+        r.count("H_items_whose_seeds_order_an_alias_set_differently")  # the seed list can expose a set()-ordered alias list
+    prev: Optional[Dict[str, tuple]] = None
+    for n, sd in enumerate(seeds):
+        ev = dict(os.environ)
+        ev.update({"TMPDIR": common.RUN_DIR, "PYTHONHASHSEED": str(sd), "COMPONENT_SDKCONFIG_RENAMES": " ".join(rfiles[1:])})
+        p = subprocess.run([sys.executable, "-m", "kconfgen"] + args, env=ev, cwd=d, stdout=subprocess.PIPE, stderr=subprocess.PIPE, text=True, timeout=300)
+        r.count("H_kconfgen_processes")
+        if p.returncode != 0:
+            r.violation({"kind": "exception", "exc": "kconfgen_exit_status", "site": "kconfgen/core.py:main", "gen": "kconfgen-processes", "generation": "first" if n == 0 else "later"},
+                        f"{what}: process #{n} exited with {p.returncode}: {p.stderr[-300:]}", case)
+            return
+        cur = full_stat(d)
+        if prev is not None:
+            r.evals += 1
+            for fmt in fmts:
+                drel = dests[fmt]
+                site = "kconfgen/core.py:write_cdep_tree" if fmt == "cdep_tree" else f"kconfgen/core.py:update_if_changed({fmt})"
+                x, y = prev.get(drel), cur.get(drel)
+                if x is None:
+                    r.violation({"kind": "output_missing_after_generation", "site": site, "gen": f"kconfgen-processes:{fmt}", "generation": "first"},
+                                f"{what}: {drel} does not exist after process #{n - 1}", case)
+                    continue
+                r.count("H_unchanged_regenerations")
+                r.outcome(("H", fmt, inplace, len(groups), common.h64(_norm(e, x[4]))))
+                if x != y:
+                    names = ("kind", "st_ino", "st_mtime_ns", "st_size", "bytes")
+                    diffs = [names[i] for i in range(5) if y is None or x[i] != y[i]]
+                    r.violation(
+                        {"kind": "unchanged_output_rewritten", "site": site, "gen": f"kconfgen-processes:{fmt}", "changed": "+".join(sorted(set(diffs))), "ops": "not_observable",
+                         "same_configuration": True, "across": "processes_with_other_hash_seed", "max_aliases_per_option": max([len(g) for g in groups] or [1]), "rename_files": len(renames)},
+                        f"{what}: process #{n} (PYTHONHASHSEED={sd}) regenerated the unchanged configuration and touched {drel}: changed {diffs}"
+                        + (f"; first differing line: {_first_diff(x[4], y[4])}" if y is not None and x[4] != y[4] else ""), case)
+            other = sorted(rel for rel in set(prev) | set(cur) if rel not in dests.values() and prev.get(rel) != cur.get(rel))
+            if other:
+                r.violation({"kind": "unchanged_regeneration_modifies_other_file", "site": "kconfgen/core.py:main", "gen": "kconfgen-processes", "files": "+".join(sorted({_classify_other(x) for x in other})),
+                             "across": "processes_with_other_hash_seed"},
+                            f"{what}: process #{n} (PYTHONHASHSEED={sd}) regenerated the unchanged configuration and modified / created {other}", case)
+        set_epoch_all(d)
+        prev = full_stat(d)
+
+
+def _first_diff(a: bytes, b: bytes) -> str:
+    la, lb = a.splitlines(), b.splitlines()
+    for x, y in zip(la, lb):
+        if x != y:
+            return f"{x!r} -> {y!r}"
+    return f"length {len(la)} -> {len(lb)} lines"
+
+
+# --------------------------------------------------------------------------------------------------
 # part B
 # --------------------------------------------------------------------------------------------------
 
@@ -618,7 +822,7 @@ def pattern(data: Optional[bytes], new: bytes, prev: bytes, others: List[Tuple[s
 
 
 def op_class(op: dict, cut: Optional[int], dest_rels: Tuple[str, ...]) -> str:
-    what = "old" if op["path"].endswith(".old") else "dest" if op["path"] in dest_rels else "other"
+    what = "dest" if op["path"] in dest_rels else "old" if op["path"].endswith(".old") else "other"
     s = f"{op['op']}:{what}"
     if op["op"] == "write" and cut is not None:
         s += ":cut=0" if cut == 0 else ":cut=all_but_one" if cut == op["n"] - 1 else ":cut=inside"
@@ -664,109 +868,176 @@ def session_texts(e: Env, save: Callable[[Any, str], None], hist: List[Dict[str,
     return texts
 
 
+def name_shape(name: str) -> str:
+    """class of a destination file name: where its dots are"""
+    dname, base = os.path.split(name)
+    shape = "dotfile" if base.startswith(".") else ""
+    dots = base.lstrip(".").count(".")
+    shape += ("_" if shape and dots else "") + ("" if not dots else "extension" if dots == 1 else "two_dots")
+    shape = shape or "plain"
+    return ("dotted_dir/" if "." in dname else "subdir/" if dname else "") + shape
+
+
+def b_targets(item: dict) -> Tuple[List[dict], List[int]]:
+    """(targets, order): targets = [{"name": destination relative to the project directory, "real": file a symlink destination points
+    to, "hist": [c0, c1, ..]}], order = the target of each successive save.  One target saved n times unless the item names siblings."""
+    if "targets" in item:
+        return [dict(t) for t in item["targets"]], [int(x) for x in item["order"]]
+    hist = item["hist"] if "hist" in item else [item["a"], item["b"]]
+    return [{"name": item.get("name", "sdkconfig"), "real": item.get("real", "real/sdkconfig.real"), "hist": hist}], [0] * (len(hist) - 1)
+
+
 def part_b(e: Env, item: dict, r: common.Result, only: Optional[list] = None) -> None:
-    hist: List[Dict[str, str]] = item["hist"] if "hist" in item else [item["a"], item["b"]]
+    targets, order = b_targets(item)
     gen, load = item.get("gen", "write_config"), bool(item.get("load", False))
     older_cfg, kind, wdep = item["older"], item["kind"], item["write_deprecated"]
-    nsaves = len(hist) - 1
+    nsaves = len(order)
     site, save = saver(gen, wdep)
     case = dict(item)
     case["files"] = e.files
     case["crash"] = None
+    nt = len(targets)
 
-    texts = session_texts(e, save, hist, load)
+    texts = [session_texts(e, save, t["hist"], load) for t in targets]
     older = _save_to_empty(save, e.inst(older_cfg).k) if older_cfg is not None else None
-    if any(texts[j] == texts[j - 1] for j in range(1, len(texts))):
+    if any(tx[j] == tx[j - 1] for tx in texts for j in range(1, len(tx))):
         r.skipped += 1  # outside the statement's second sentence: some save of the history saves nothing (part A covers it)
         return
     root = e.fresh("B")
     d = os.path.join(root, "proj")
     os.mkdir(d)
-    dest = os.path.join(d, "sdkconfig")
-    if kind == "regular":
-        real = dest
-    else:
-        os.mkdir(os.path.join(d, "real"))
-        real = os.path.join(d, "real", "sdkconfig.real")
-        os.symlink(os.path.join("real", "sdkconfig.real") if kind == "symlink" else real, dest)
-    with open(real, "wb") as f:
-        f.write(texts[0])
-    if older is not None:
-        with open(dest + ".old", "wb") as f:
-            f.write(older)
+    dests, dest_rels = [], []
+    for t, tx in zip(targets, texts):
+        dest = os.path.join(d, t["name"])
+        os.makedirs(os.path.dirname(dest), exist_ok=True)
+        if kind == "regular":
+            real = dest
+        else:
+            real = os.path.join(d, t["real"])
+            os.makedirs(os.path.dirname(real), exist_ok=True)
+            os.symlink(os.path.relpath(real, os.path.dirname(dest)) if kind == "symlink" else real, dest)
+        with open(real, "wb") as f:
+            f.write(tx[0])
+        if older is not None:
+            with open(dest + ".old", "wb") as f:
+                f.write(older)
+        dests.append(dest)
+        dest_rels.append((t["name"], os.path.relpath(real, d)))
     pre = faultfs.snapshot(d)
-    dest_rels = ("sdkconfig", os.path.relpath(real, d))
-    what = f"{gen} session {' -> '.join(str(c) for c in hist)} ({kind}, .old {'present' if older is not None else 'absent'}, instance {'loaded from dest' if load else 'fresh'})"
+    shapes = [name_shape(t["name"]) for t in targets]
+    sig_name: Dict[str, Any] = {} if shapes[0] == "plain" and nt == 1 else {"dest_name": shapes[0]}
+    if nt > 1:
+        sig_name = {"dest_name": "+".join(shapes), "siblings": nt}
+    hist_str = " ; ".join(f"{t['name']}: " + " -> ".join(str(c) for c in t["hist"]) for t in targets) + (f" ; saves in the order {[targets[i]['name'] for i in order]}" if nt > 1 else "")
+    what = f"{gen} session {hist_str} ({kind}, .old {'present' if older is not None else 'absent'}, instance {'loaded from dest' if load else 'fresh'})"
+    # global save number k (1-based) -> (target, number of that target's save)
+    steps: List[Tuple[int, int]] = []
+    cnt = [0] * nt
+    for t in order:
+        cnt[t] += 1
+        steps.append((t, cnt[t]))
+
+    def look() -> List[tuple]:
+        return [(read_through(p), read_through(p + ".old"), os.path.islink(p)) for p in dests]
 
     def session(crash: Optional[tuple], upto: int, seen: Optional[list] = None) -> Tuple[faultfs.FaultFS, List[int]]:
-        """the session's saves 1..upto on a fresh instance; `seen` collects (dest, .old, dest still a symlink) after every save"""
-        i = e.inst({})
-        if load:
-            i.k.load_config(dest)
+        """the session's saves 1..upto on fresh instances (one per destination); `seen` collects (dest, .old, dest still a symlink) of
+        every destination after every save"""
+        insts = []
+        for p in dests:
+            i = e.inst({})
+            if load:
+                i.k.load_config(p)
+            insts.append(i)
         marks: List[int] = []
         with faultfs.FaultFS(d, crash=crash) as fs:
             try:
-                for j in range(1, upto + 1):
-                    _step(i.k, hist[j - 1], hist[j])
-                    save(i.k, dest)
+                for t, j in steps[:upto]:
+                    _step(insts[t].k, targets[t]["hist"][j - 1], targets[t]["hist"][j])
+                    save(insts[t].k, dests[t])
                     marks.append(len(fs.log))
                     if seen is not None:
-                        seen.append((read_through(dest), read_through(dest + ".old"), os.path.islink(dest)))
+                        seen.append(look())
             except faultfs.Crash:
                 pass
         return fs, marks
 
-    def names_for(j: int) -> List[Tuple[str, Optional[bytes]]]:
-        return [(f"EARLIER{j - 1 - m}", texts[m]) for m in range(j - 2, -1, -1)] + [("OLDER", older)]
+    def names_for(t: int, j: int) -> List[Tuple[str, Optional[bytes]]]:
+        out = [(f"EARLIER{j - 1 - m}", texts[t][m]) for m in range(j - 2, -1, -1)] + [("OLDER", older)]
+        for u in range(nt):
+            if u != t:
+                out += [("SIBLING_TEXT", x) for x in texts[u]]
+        return out
+
+    def siblings_changed(t: int, before: List[tuple], now: List[tuple]) -> List[str]:
+        """files of the OTHER destinations that differ from what they held when this save started"""
+        out = []
+        for u in range(nt):
+            if u != t:
+                out += [w for w, x, y in (("dest", before[u][0], now[u][0]), ("old", before[u][1], now[u][1])) if x != y]
+        return out
 
     # ---- crash-free
-    seen: List[tuple] = []
+    initial = look()
+    seen: List[list] = []
     try:
         fs, marks = session(None, nsaves, seen)
     except Exception as ex:  # noqa: BLE001 -- observation
         s = site_of(ex)
-        r.violation({"kind": "exception", "exc": type(ex).__name__, "site": s, "part": "B", "gen": gen, "dest_kind": kind, "save": "first" if not seen else "later"},
+        r.violation({"kind": "exception", "exc": type(ex).__name__, "site": s, "part": "B", "gen": gen, "dest_kind": kind, "save": "first" if not seen else "later", **sig_name},
                     f"{what}: save #{len(seen) + 1} raised {type(ex).__name__}: {ex} at {s}", case)
         return
     dry = fs.log
-    for j in range(1, nsaves + 1):
+    for k in range(1, nsaves + 1):
         r.evals += 1
-        D, O, still_link = seen[j - 1]
-        new, prev = texts[j], texts[j - 1]
+        t, j = steps[k - 1]
+        D, O, still_link = seen[k - 1][t]
+        new, prev = texts[t][j], texts[t][j - 1]
         if kind != "regular" and not still_link:
             r.count("B_symlink_replaced_by_save")  # only a source comment ("Preserve symlinks") promises this: counted, not a violation
         if D != new or O != prev:
-            pd, po = pattern(D, new, prev, names_for(j)), pattern(O, new, prev, names_for(j))
+            pd, po = pattern(D, new, prev, names_for(t, j)), pattern(O, new, prev, names_for(t, j))
             r.violation(
                 {"kind": "completed_save_wrong", "site": site, "gen": gen, "save": "first" if j == 1 else "later", "dest_kind": kind, "old_present": older is not None,
-                 "dest": pd, "old": po, "dest_is_symlink": still_link},
-                f"{what}: after the completed save #{j} dest is {pd}, .old is {po} (expected NEW / PREV), symlink kept: {still_link}", case)
+                 "dest": pd, "old": po, "dest_is_symlink": still_link, **sig_name},
+                f"{what}: after the completed save #{k} ({targets[t]['name']}) dest is {pd}, {targets[t]['name']}.old is {po} (expected NEW / PREV), symlink kept: {still_link}; "
+                f"files now: {sorted(x for x, v in faultfs.tree_state(d).items() if v is not None)}", case)
+        ch = siblings_changed(t, seen[k - 2] if k > 1 else initial, seen[k - 1])
+        if ch:
+            r.violation(
+                {"kind": "save_modifies_sibling_configuration", "site": site, "gen": gen, "dest_kind": kind, "old_present": older is not None, "files": "+".join(ch), "when": "completed_save", **sig_name},
+                f"{what}: the completed save #{k} of {targets[t]['name']} changed the {ch} file(s) of the sibling configuration(s) {[x['name'] for n, x in enumerate(targets) if n != t]}", case)
     r.count("B_saves", nsaves)
     r.count("B_sessions")
     if nsaves > 1:
         r.count(f"B_sessions_of_{nsaves}_saves")
+    if nt > 1:
+        r.count("B_sibling_sessions")
+    r.count("B_dest_name:" + "+".join(shapes))
     r.count("B_ops", len(dry))
     # per save: its window of operations; the backup step is everything before the open(dest, "w") of the new configuration;
     # first operation that modifies the destination itself (as target, or as source of a rename): while none has completed
     # the destination is the untouched previous file, whatever the implementation considers its backup step to be
     windows = []
-    for j in range(1, nsaves + 1):
-        lo, hi = (marks[j - 2] if j > 1 else 0), marks[j - 1]
-        opens = [o["i"] for o in dry[lo:hi] if o["op"] == "open" and o["path"] in dest_rels and not o["path"].endswith(".old")]
-        touching = [o["i"] for o in dry[lo:hi] if o["path"] in dest_rels or o.get("src") in dest_rels]
+    for k in range(1, nsaves + 1):
+        rels = dest_rels[steps[k - 1][0]]
+        lo, hi = (marks[k - 2] if k > 1 else 0), marks[k - 1]
+        opens = [o["i"] for o in dry[lo:hi] if o["op"] == "open" and o["path"] in rels and not o["path"].endswith(".old")]
+        touching = [o["i"] for o in dry[lo:hi] if o["path"] in rels or o.get("src") in rels]
         windows.append((lo, hi, opens[-1] if opens else hi, touching[0] if touching else hi))
     # ---- every crash point of every save
     for point in faultfs.crash_points(dry):
         if only is not None and tuple(only) != point:
             continue
-        j = next(n + 1 for n, w in enumerate(windows) if w[0] <= point[0] < w[1])
-        if only is None and item.get("crash_in") == "last_save" and j != nsaves:
-            continue  # executed by the work item of the session prefix c0 .. cj
-        lo, hi, backup_end, first_dest_op = windows[j - 1]
-        new, prev = texts[j], texts[j - 1]
+        k = next(n + 1 for n, w in enumerate(windows) if w[0] <= point[0] < w[1])
+        if only is None and item.get("crash_in") == "last_save" and k != nsaves:
+            continue  # executed by the work item of the session prefix that ends with save k
+        t, j = steps[k - 1]
+        lo, hi, backup_end, first_dest_op = windows[k - 1]
+        new, prev = texts[t][j], texts[t][j - 1]
         faultfs.restore(d, pre)
         try:
-            fs2, _ = session(point, j)
+            fs2, _ = session(point, k)
         except Exception as ex:  # noqa: BLE001
             raise RuntimeError(f"crashed session raised {ex!r} before its crash point") from ex
         if not fs2.crashed or not faultfs.same_prefix(dry, fs2.log) or len(fs2.log) != point[0] + 1:
@@ -775,22 +1046,31 @@ def part_b(e: Env, item: dict, r: common.Result, only: Optional[list] = None) ->
         r.count("crash_points")
         if j > 1:
             r.count("crash_points_in_later_save")
+        if nt > 1:
+            r.count("crash_points_in_sibling_session")
         if point[1] is not None:
             r.count("write_cuts")
-        cls = op_class(dry[point[0]], point[1], dest_rels)
+        cls = op_class(dry[point[0]], point[1], dest_rels[t])
         r.count("crash@" + cls)
-        D, O = read_through(dest), read_through(dest + ".old")
-        pd, po = pattern(D, new, prev, names_for(j)), pattern(O, new, prev, names_for(j))
-        r.outcome(("B", gen, kind, older is not None, load, "first" if j == 1 else "later", cls, pd, po))
+        now = look()
+        D, O = now[t][0], now[t][1]
+        pd, po = pattern(D, new, prev, names_for(t, j)), pattern(O, new, prev, names_for(t, j))
+        r.outcome(("B", gen, kind, older is not None, load, "first" if j == 1 else "later", cls, pd, po) + ((tuple(shapes),) if sig_name else ()))
         in_backup = point[0] < backup_end or point[0] <= first_dest_op
+        c = dict(case)
+        c["crash"] = [point[0], point[1]]
         if not (D == new or O == prev or (in_backup and D == prev)):
-            c = dict(case)
-            c["crash"] = [point[0], point[1]]
             r.violation(
                 {"kind": "both_copies_lost", "site": site, "gen": gen, "save": "first" if j == 1 else "later", "dest_kind": kind, "old_present": older is not None,
-                 "crash_at": cls, "dest": pd, "old": po, "backup_finished": not in_backup},
-                f"{what}: save #{j} of {nsaves} dies at {cls} {point} (operations of this save {[(o['op'], o['path']) for o in dry[lo:hi]]}): "
-                f"dest is {pd}, .old is {po} -- neither the complete new configuration nor the complete previous one (the text save #{j} found) survives", c)
+                 "crash_at": cls, "dest": pd, "old": po, "backup_finished": not in_backup, **sig_name},
+                f"{what}: save #{k} of {nsaves} ({targets[t]['name']}) dies at {cls} {point} (operations of this save {[(o['op'], o['path']) for o in dry[lo:hi]]}): "
+                f"dest is {pd}, {targets[t]['name']}.old is {po} -- neither the complete new configuration nor the complete previous one (the text save #{k} found) survives", c)
+        ch = siblings_changed(t, seen[k - 2] if k > 1 else initial, now)
+        if ch:
+            r.violation(
+                {"kind": "save_modifies_sibling_configuration", "site": site, "gen": gen, "dest_kind": kind, "old_present": older is not None, "files": "+".join(ch), "when": "crash_at:" + cls, **sig_name},
+                f"{what}: save #{k} of {targets[t]['name']}, dying at {cls} {point}, changed the {ch} file(s) of the sibling configuration(s) "
+                f"{[x['name'] for n, x in enumerate(targets) if n != t]} (operations of this save {[(o['op'], o['path']) for o in dry[lo:hi]]})", c)
 
 
 # --------------------------------------------------------------------------------------------------
@@ -803,9 +1083,13 @@ def run_item(item) -> common.Result:
     if item["part"] == "A":
         part_a(e, item["gen"], item["a"], item["b"], r)
         r.sample = {"part": "A", "generator": item["gen"], "tree": item.get("tree", "base"), "a": item["a"], "b": item["b"]}
+    elif item["part"] == "H":
+        part_h(e, item, r)
+        r.sample = {"part": "H", "rename_files": item["renames"], "configuration": item["cfg"], "PYTHONHASHSEED_of_successive_processes": item["seeds"], "in_place": bool(item.get("inplace"))}
     else:
         part_b(e, item, r)
-        r.sample = {"part": "B", "dest": item["kind"], "older_old_present": item["older"] is not None, "history": item.get("hist") or [item["a"], item["b"]],
+        tg, order = b_targets(item)
+        r.sample = {"part": "B", "dest": item["kind"], "older_old_present": item["older"] is not None, "destinations": [{"name": t["name"], "history": t["hist"]} for t in tg], "order_of_saves": order,
                     "save_function": item.get("gen", "write_config"), "instance_loaded_dest": bool(item.get("load")), "write_deprecated": item["write_deprecated"], "tree": TREE}
     return r
 
@@ -815,6 +1099,8 @@ def replay(case) -> List[dict]:
     e = Env(case["files"])
     if case["part"] == "A":
         part_a(e, case["gen"], case["a"], case["b"], r)
+    elif case["part"] == "H":
+        part_h(e, case, r)
     else:
         part_b(e, case, r, only=case.get("crash"))
     return r.viols
